@@ -258,7 +258,9 @@ LIMITS = r'''
   property theorem (recorded in each evidence file) except one: `C15_suzuki_split_cancels` is stated over
   the standard library's real numbers (`Coq.Reals`) and therefore depends on the library's own axioms
   `ClassicalDedekindReals.sig_forall_dec` and `FunctionalExtensionality.functional_extensionality_dep`
-  (as printed; `Thm/C15/SuzukiR.v` is the only file importing `Reals`).  No `Admitted` / `admit`; no guard, positivity or
+  (as printed; `Thm/C15/SuzukiR.v` is the only file importing `Reals`).  `coqchk -o` (build/coqchk.log) lists the
+  axioms of every loaded library file, i.e. additionally `ClassicalDedekindReals.sig_not_dec` and
+  `Classical_Prop.classic` from the loaded `Reals` library; they are not used by the theorem.  No `Admitted` / `admit`; no guard, positivity or
   universe switches.  Libraries used: Coq standard library only (`QArith`, `Qcanon`, `ZArith`, `NArith`,
   `List`, `Bool`, `Lia`, `Ring`, `String`, `Sorted`, `Permutation`, `ZifyBool`/`ZifyNat`).
 * `harness/vf/gen.py`: the `ast` translator for literal tables and for pure integer functions (it
